@@ -1,3 +1,4 @@
+import math
 import struct
 from dataclasses import dataclass
 
@@ -76,9 +77,12 @@ class LowerArithConstant(RewritePattern):
                 s32_min = signed_lower_bound(32)
                 s32_max = signed_upper_bound(32)
                 # If the value is an integer that fits in s32, then convert.
-                if (val_data := op_val.value.data).is_integer() and s32_min <= (
-                    int_val := int(val_data)
-                ) < s32_max:
+                # Negative zero has no integer counterpart, so its bits are loaded.
+                if (
+                    (val_data := op_val.value.data).is_integer()
+                    and s32_min <= (int_val := int(val_data)) < s32_max
+                    and not (val_data == 0.0 and math.copysign(1.0, val_data) < 0)
+                ):
                     rewriter.replace(
                         op,
                         [
